@@ -122,9 +122,11 @@ func (w *World) RunSync(f ConcFault) CallObs {
 	select {
 	case <-done:
 	case <-time.After(watchdog):
-		obs.Ret = "hang"
 		cancel()
-		<-done
+		select {
+		case <-done:
+		case <-time.After(watchdog):
+		}
 		obs.Ret = "hang"
 	}
 	obs.Elapsed = time.Since(t0)
